@@ -17,8 +17,16 @@ def sel(L=(), V=()):
     return {"t": "sel", "L": list(L), "V": list(V)}
 
 
-NB_FILTERS = [NOF, ALLF, REJ, sel(L=[1]), sel(V=[2]), sel(L=[2], V=[0, 1])]
-LINK_FILTERS = [NOF, ALLF, REJ, sel(L=[1]), sel(L=[2])]
+REJZ = {"t": "rejz", "L": [], "V": []}        # rejects everything AND is falsy (an empty callable container)
+NB_FILTERS = [NOF, ALLF, REJ, sel(L=[1]), sel(V=[2]), sel(L=[2], V=[0, 1]), REJZ]
+LINK_FILTERS = [NOF, ALLF, REJ, sel(L=[1]), sel(L=[2]), REJZ]
+
+
+class FalsyReject(set):
+    """a callable allow-list that is empty, hence falsy: `filterfunc or default` must not replace it"""
+
+    def __call__(self, *a):
+        return False
 
 
 class SubVertex(Vertex):
@@ -61,6 +69,8 @@ def _mk_filter(w, f, arity):
         return (lambda e, v: True) if arity == 2 else (lambda e: True)
     if t == "rej":
         return (lambda e, v: False) if arity == 2 else (lambda e: False)
+    if t == "rejz":
+        return FalsyReject()
     L, V = set(f["L"]), set(f["V"])
     if arity == 2:
         return lambda e, v: (w.n_link(e) in L) or (w.n_obj(v) in V)
@@ -85,7 +95,7 @@ def call(fn):
 
 def qdom(S, v):
     n = len(S["kind"])
-    return all(1 <= e <= n and S["kind"][e - 1] != "N" and len(S["ends"][e - 1]) == 2 for e in S["vl"][v - 1])
+    return all(1 <= e <= n and S["kind"][e - 1] != "N" and len(S["ends"][e - 1]) >= 2 for e in S["vl"][v - 1])
 
 
 def probe(q, a, res, f=NOF, g=NOF, M=(-1,), attr=()):
@@ -124,6 +134,8 @@ def stored_value(cls, variant):
         return (1, 1.0, True)[variant % 3]
     if cls == 2:
         return "a" + "b"
+    if cls == 4:
+        return None                 # the attribute exists and holds None
     raise ValueError(cls)
 
 
@@ -132,6 +144,8 @@ def sought_value(cls):
         return 1.0
     if cls == 2:
         return "".join(["a", "b"])
+    if cls == 4:
+        return None
     return (1, 2)          # class 3: a value no vertex carries
 
 
@@ -231,8 +245,8 @@ def descs_trav(S, density, salt, big=False, unks=(0, 1, 2)):
 
 
 def attr_vectors(n, salt, count):
-    allv = list(itertools.product((0, 1, 2), repeat=n))
-    out = [[1] * n, [2] * n]
+    allv = list(itertools.product((0, 1, 2, 4), repeat=n))
+    out = [[1] * n, [2] * n, [0] + [4] * (n - 1), [4 if x % 2 else 0 for x in range(n)]]
     i = 0
     while len(out) < min(count, len(allv)) and i < 400:
         v = list(allv[h(salt, i) % len(allv)])
@@ -266,7 +280,7 @@ def descs_search(S, salt, count, big=False):
         for M in (msets_some(S, (salt, S["ends"]), 1) if big else msets(S)):
             starts = range(1, n + 1) if M == (-1,) else M
             for s in starts:
-                for val in (1, 2, 3):
+                for val in (1, 2, 3, 4):
                     for q in ("bfs", "dfsr", "dfsi"):
                         yield desc(q, (s, val), M=M, attr=attr)
 
